@@ -1,5 +1,5 @@
 SPECIFICATION Spec
-CONSTANTS Workers = {w1, w2, w3}  MaxIter = 4  AllowCancel = FALSE  BodiesEnd = TRUE  PreCancelled = TRUE  SyncFlag = TRUE
+CONSTANTS ParamSet <- P_pre  AllowCancel = FALSE  BodiesEnd = TRUE  SyncFlag = TRUE
 INVARIANTS Ceiling Gapless Unique NothingOnADeadContext
 PROPERTIES Termination
 CHECK_DEADLOCK FALSE
